@@ -17,6 +17,17 @@
 //!     later write call fails with `BrokenPipe`.
 //!   * `rate:<8 hex of f32 bits>` (optional, sampled formatters only; ignored for plain ones): the step
 //!     calls `format_with_sample_rate` with this rate instead of the one stored in `BuiltFmt`.
+//!   * `pre:<op>,<op>…` (optional): operations on the POOL of formatters executed before the step - `c<k>`:
+//!     `Emf::clone` of formatter k, appended to the pool; `s<k>` / `g<k>` / `o<k>`: formatter k is moved into
+//!     `with_sampling_and_rng` / `FormatExt::merge_globals(entry "VerifGlobal"="g")` / `FormatExt::output_to`
+//!     (then used through `EntryIoStream::next`). All need a plain `Emf`. Formatter 0 is the one built from
+//!     the configuration. `on:<k>`: the formatter that formats this step (default 0). `m:<n>`: this step's
+//!     multiplicity (sampled formatters only) instead of the configuration's.
+//!   * `panic:<item>:<site><k>` (optional): the entry panics while item number `item` is written (`w`: in
+//!     `Entry::write` before it, `d`/`o`: the metric's dimension / observation iterator after yielding k
+//!     elements); contained by `catch_unwind`, observable `panic 0 - j1 f1`, the formatter is used again.
+//!   * `skip` (optional): the step is not run in the Lean model (reply `skipped`): entries with hundreds of
+//!     thousands of pushes; the model's later answers do not depend on it (theorem c14_history_independent).
 //! Steps whose entry has no `T` item make the formatter read the clock: in every output line the digits
 //! after the first `"Timestamp":` are replaced by `0` before anything else is computed (nbytes too).
 //!
@@ -41,7 +52,9 @@
 //! (`emf:framing` / `emf:invalid-json` / `emf:aws-shape`); validation error => zero bytes
 //! (`emf:validation-wrote-bytes`); invalid `rate:` => validation error and zero bytes (`emf:bad-rate`);
 //! no panic (`emf:panic`). Duplicate member names are counted (`dup-members`), not failed.
-//! C14, every step i: formatting the same step on a FRESH formatter of the same cfg gives the same result
+//! C14, every step i (whatever formatter of the pool formats it: the original, a clone of a used formatter,
+//! a wrapped one; after accepted, rejected, io-failed, panicking steps): formatting the same step on a
+//! FRESH formatter of the same cfg, wrapped the same way, gives the same result
 //! class (`ok`/`io`/`val:<kinds>`), for non-io results the same multiset of lines, for io the same
 //! nbytes (`emf:history-dependence`); no panic (`emf:panic`).
 //! Failures are shrunk (steps, formatter configuration, items of every entry, observation lists) before
